@@ -38,14 +38,17 @@ def build_tools(flavour):
     out = {}
     with common.Lock("c20-tools-" + flavour):
         for t, name in TOOLS.items():
-            exe = os.path.join(inc, name)
+            # the name carries the recipe, so that a binary made with another include order is never reused
+            recipe = hashlib.sha256(("v2|-I-first|" + flavour + "|" + " ".join(common.cflags("asan"))).encode()).hexdigest()[:10]
+            exe = os.path.join(inc, "%s-%s" % (name, recipe))
             out[t] = exe
             if os.path.exists(exe):
                 continue
             srcs = [os.path.join(common.REPO, "tools", name + "_tool.c")]
             if flavour == "att":
                 srcs.append(os.path.join(common.REPO, "tools", "attgetopt.c"))
-            cmd = ["gcc"] + common.cflags("asan") + ["-I" + inc] + srcs + [os.path.join(d, "libwbxml.a"), "-lexpat", "-o", exe + ".tmp"]
+            # our tools/config.h must win over the one common._gen_config puts under <build>/inc (always the glibc flavour)
+            cmd = ["gcc", "-I" + inc] + common.cflags("asan") + srcs + [os.path.join(d, "libwbxml.a"), "-lexpat", "-o", exe + ".tmp"]
             rc, o, e = common.sh(cmd)
             if rc != 0:
                 raise common.BuildError("tool build failed: %s\n%s" % (name, e[-3000:]))
@@ -105,8 +108,19 @@ def run_case(exes, case, idx):
         argv = [case["argv0"]] + list(case["args"])
         kw = {}
         fd = None
+        wfd = None
         if case["stdin"] == "DIR":
             fd = os.open(wd, os.O_RDONLY)
+            kw["stdin"] = fd
+        elif isinstance(case["stdin"], tuple):
+            # ("NBPIPE", data): a non-blocking pipe that holds `data` while its write end stays open: fread delivers the
+            # data, then read() fails with EAGAIN and the stream's error flag is set — a read error in mid-stream.
+            # O_NONBLOCK is set before exec and the data is already in the pipe: no timing dependence.
+            fd, wfd = os.pipe()
+            os.set_blocking(fd, False)
+            os.set_blocking(wfd, False)
+            if case["stdin"][1]:
+                os.write(wfd, case["stdin"][1][:60000])
             kw["stdin"] = fd
         else:
             kw["input"] = case["stdin"]
@@ -119,6 +133,8 @@ def run_case(exes, case, idx):
         finally:
             if fd is not None:
                 os.close(fd)
+            if wfd is not None:
+                os.close(wfd)
         after = snapshot(wd)
         changed = {}
         for k in set(before) | set(after):
@@ -282,11 +298,13 @@ def case_json(case):
             "args_text": [a.decode("latin-1") for a in case["args"]],
             "files": {k.decode("latin-1"): hx(v) for k, v in case.get("files", {}).items()},
             "dirs": [d.decode("latin-1") for d in case.get("dirs", [])], "ro": [d.decode("latin-1") for d in case.get("ro", [])],
-            "stdin": "DIR" if case["stdin"] == "DIR" else hx(case["stdin"]), "kind": case.get("kind", "")}
+            "stdin": "DIR" if case["stdin"] == "DIR" else ("NBPIPE:" + hx(case["stdin"][1]) if isinstance(case["stdin"], tuple) else hx(case["stdin"])),
+            "kind": case.get("kind", "")}
 
 
 def case_from_json(j):
     return {"tool": j["tool"], "fl": j["fl"], "argv0": unhx(j["argv0"]), "args": [unhx(a) for a in j["args"]],
             "files": {k.encode("latin-1"): unhx(v) for k, v in j.get("files", {}).items()},
             "dirs": [d.encode("latin-1") for d in j.get("dirs", [])], "ro": [d.encode("latin-1") for d in j.get("ro", [])],
-            "stdin": "DIR" if j["stdin"] == "DIR" else unhx(j["stdin"]), "kind": j.get("kind", "replay")}
+            "stdin": "DIR" if j["stdin"] == "DIR" else (("NBPIPE", unhx(j["stdin"][7:])) if j["stdin"].startswith("NBPIPE:") else unhx(j["stdin"])),
+            "kind": j.get("kind", "replay")}
